@@ -87,7 +87,10 @@ class Result:
 
 # ---------------------------------------------------------------- step 1: extract
 
-def step_extract(res):
+def step_extract(res, needs=("Tables", "Consts", "CallSites")):
+    """Regenerate lean/Stef/Gen. Each generator is independent: a generator that does not
+    understand the current source fails loudly, and only the properties whose models need
+    its output (cfg["needs_gen"]) lose their tie."""
     with Lock("extract"):
         exe = os.path.join(BUILD, "extract")
         rc, out, err = run(["go", "build", "-o", exe, "."], cwd=os.path.join(VERIF, "extract"), env=goenv())
@@ -97,14 +100,18 @@ def step_extract(res):
         tmp = tempfile.mkdtemp(prefix="gen-", dir=BUILD)
         try:
             rc, out, err = run([exe, REPO, tmp])
-            if rc != 0:
+            failed = re.findall(r"extract: FAILED (\S+): (.*)", err)
+            if rc != 0 and not failed:
                 res.violation("tie-broken", "extractor", (out + err)[-3000:])
                 return False
             gen = os.path.join(LEAN, "Stef", "Gen")
             os.makedirs(gen, exist_ok=True)
             new = sorted(os.listdir(tmp))
+            failed_names = set(n for n, _ in failed)
             for f in os.listdir(gen):
-                if f not in new:
+                # a failed generator's previous output is kept so that the shared driver and the
+                # other properties still build; the properties that need it are flagged below.
+                if f not in new and f[:-5] not in failed_names:
                     os.remove(os.path.join(gen, f))
             for f in new:
                 a = open(os.path.join(tmp, f), "rb").read()
@@ -112,6 +119,13 @@ def step_extract(res):
                 if not os.path.exists(p) or open(p, "rb").read() != a:
                     open(p, "wb").write(a)
             res.extra["gen_files"] = new
+            ok = True
+            for name, msg in failed:
+                res.extra.setdefault("gen_failed", []).append(name + ": " + msg)
+                if name in needs:
+                    res.violation("tie-broken", "extractor:" + name, msg)
+                    ok = False
+            return ok
         finally:
             shutil.rmtree(tmp, ignore_errors=True)
     return True
